@@ -204,6 +204,33 @@ def generated_queries(tier='quick'):
             (f'single-join-qualified-{dbn}-create', f'CREATE TABLE int2.out1 ({body})'),
             (f'single-join-qualified-{dbn}-sub', f'SELECT * FROM int2.tbl2 AS t2 JOIN ({body}) AS s ON s.id = t2.id'),
         ]
+    # round 8: a bare table name spelled like a database / project; conjuncts that are not comparisons in joins the planner executes itself;
+    # the same CTE name defined in two selects of one statement; a schema.table of an integration spelled like project.model
+    for nm in ('files', 'int2', 'mindsdb', 'proj', 'INT2'):
+        q += [
+            (f'bare-name-like-db-{nm}', f'SELECT * FROM {nm} WHERE a = 1'),
+            (f'bare-name-like-db-{nm}-sub', f'SELECT * FROM int1.tbl1 WHERE a IN (SELECT id FROM {nm})'),
+            (f'bare-name-like-db-{nm}-join', f'SELECT * FROM {nm} AS x JOIN int2.tbl2 AS t2 ON x.id = t2.id'),
+            (f'bare-name-like-db-{nm}-union', f'SELECT a FROM {nm} UNION SELECT a FROM int1.tbl1'),
+            (f'bare-name-like-db-{nm}-delete', f'DELETE FROM int1.tbl1 WHERE a IN (SELECT id FROM {nm})'),
+        ]
+    for i, cj in enumerate(('t2.flag', 'TRUE', 'CAST(t2.flag AS bool)', 'NOT t2.flag', 't1.flag', 'coalesce(t2.flag, FALSE)', '1', 'NULL', 't2.a IS NULL', 'EXISTS (SELECT 1 FROM int1.tbl3)', '@v', '(t2.flag)')):
+        q += [
+            (f'conjunct-form-{i}-join', f'SELECT * FROM int1.tbl1 AS t1 JOIN int2.tbl2 AS t2 ON t1.id = t2.id WHERE t1.a = 1 AND {cj}'),
+            (f'conjunct-form-{i}-join-first', f'SELECT * FROM int1.tbl1 AS t1 JOIN int2.tbl2 AS t2 ON t1.id = t2.id WHERE {cj} AND t2.b = 2'),
+            (f'conjunct-form-{i}-api', f'SELECT * FROM api1.tbl1 AS t1 JOIN int2.tbl2 AS t2 ON t1.id = t2.id WHERE {cj}'),
+            (f'conjunct-form-{i}-model', f'SELECT * FROM int1.tbl1 AS t1 JOIN mindsdb.pred AS t2 WHERE t1.a = 1 AND {cj}'),
+            (f'conjunct-form-{i}-model-part', f'SELECT * FROM int1.tbl1 AS t1 JOIN mindsdb.pred AS t2 WHERE {cj} USING partition_size = 10'),
+        ]
+    q += [
+        ('cte-same-name-union', 'WITH c AS (SELECT a FROM int1.tbl1) SELECT a FROM c UNION ALL (WITH c AS (SELECT a FROM int2.tbl2) SELECT a FROM c)'),
+        ('cte-same-name-except', 'WITH c AS (SELECT a FROM int1.tbl1) SELECT a FROM c EXCEPT (WITH c AS (SELECT a FROM int2.tbl2) SELECT a FROM c)'),
+        ('cte-two-names-union', 'WITH c AS (SELECT a FROM int1.tbl1) SELECT a FROM c UNION ALL (WITH d AS (SELECT a FROM int2.tbl2) SELECT a FROM d)'),
+        ('single-join-schema-like-model', 'SELECT * FROM int1.proj.pred2 AS a JOIN int1.tbl2 AS b ON a.id = b.id'),
+        ('single-join-schema-like-model-insert', 'INSERT INTO int2.out1 (SELECT * FROM int1.proj.pred2 AS a JOIN int1.tbl2 AS b ON a.id = b.id)'),
+        ('single-join-schema-like-model-create', 'CREATE TABLE int2.out1 (SELECT * FROM int1.mindsdb.pred AS a JOIN int1.tbl2 AS b ON a.id = b.id)'),
+        ('single-join-schema-like-model-union', 'SELECT a.id FROM int1.proj.pred2 AS a JOIN int1.tbl2 AS b ON a.id = b.id UNION SELECT id FROM int2.tbl2'),
+    ]
     return q
 
 
